@@ -14,20 +14,55 @@ import (
 	"golang.org/x/net/internal/zzverif/vx"
 )
 
+// c11srvAlphabet is c10srvAlphabet plus, per stream, the PADDED
+// boundary-relative frames DRP(s, rel, ovh): frame length w+rel of which ovh
+// bytes are pad-length byte + padding (simplest first: fixed frames, unpadded
+// relative frames, padded relative frames by growing overhead).
+func c11srvAlphabet(cls []int64, data [][3]int64, reads []int64, extras []string, rel, ovhs []int64) []c08srvEv {
+	var a []c08srvEv
+	for _, ev := range c10srvAlphabet(cls, data, nil, nil, rel) {
+		a = append(a, ev)
+		if ev.K == "DR" && ev.arg(1) == rel[len(rel)-1] {
+			for _, o := range ovhs {
+				for _, r := range rel {
+					a = append(a, c08srvEv{K: "DRP", A: []int64{ev.arg(0), r, o, 0}})
+				}
+			}
+		}
+	}
+	return append(a, c10srvAlphabet(nil, nil, reads, extras, nil)...)
+}
+
 func c11srvParts(c *vx.Ctx) []c10srvPart {
 	small := c08srvCfg{Sched: "9218", StrWin: 8}          // stream boundary reachable with 1..9 byte frames
+	mid := c08srvCfg{Sched: "9218", StrWin: 600}          // stream boundary reachable with maximal padding (pad length 255) on more than one frame
 	connB := c08srvCfg{Sched: "9218", ConnWin: 65535}     // connection boundary: 65535 (cannot be configured lower)
 	seedConn := []string{"H(-1)", "D(1,16384,0,0)", "D(1,16384,0,0)", "D(1,16384,0,0)"} // 16383 bytes of connection window left
 	seedConn2 := []string{"H(-1)", "H(-1)", "D(1,16384,0,0)", "D(3,16384,0,0)", "D(1,16384,0,0)"}
 	d := [][3]int64{{1, 0, 0}, {0, 0, 0}}
+	// (payload, padding): fixed padded frames well inside the window, so that
+	// their padding credit is still batched in inflow.unsent (not yet returned
+	// by WINDOW_UPDATE) when the next frame is sized against the window.
+	dPadS := [][3]int64{{1, 0, 0}, {0, 0, 0}, {1, 1, 0}}
+	dPadL := [][3]int64{{1, 0, 0}, {0, 0, 0}, {1, 1, 0}, {1, 255, 0}}
 	rel := []int64{-1, 0, 1}
+	// pad-length byte + padding: PADDED with no padding, small, maximal (RFC 9113 §6.1)
+	ovhS := []int64{1, 3}
+	ovhL := []int64{1, 3, 256}
 	aSmall := c10srvAlphabet([]int64{-1}, d, []int64{1, 100}, []string{"C"}, rel)
 	aConn := c10srvAlphabet(nil, d, []int64{1, 100, 20000}, []string{"C"}, rel)
+	pSmall := c11srvAlphabet([]int64{-1}, dPadS, []int64{1, 100}, []string{"C"}, rel, ovhS)
+	pMid := c11srvAlphabet([]int64{-1}, dPadL, []int64{1, 1000}, []string{"C"}, rel, ovhL)
+	pConn := c11srvAlphabet(nil, dPadL, []int64{1, 100, 20000}, []string{"C"}, rel, ovhL)
 	if c.Quick() {
 		return []c10srvPart{
 			{"srv/win8/empty", small, nil, aSmall, 5},
 			{"srv/conn65535/prefilled", connB, seedConn, aConn, 4},
 			{"srv/conn65535/prefilled-two-streams", connB, seedConn2, aConn, 3},
+			{"srv/win8/padded", small, nil, pSmall, 5},
+			{"srv/win600/padded", mid, nil, pMid, 4},
+			{"srv/conn65535/prefilled/padded", connB, seedConn, pConn, 3},
+			{"srv/conn65535/prefilled-two-streams/padded", connB, seedConn2, pConn, 2},
 		}
 	}
 	return []c10srvPart{
@@ -35,13 +70,17 @@ func c11srvParts(c *vx.Ctx) []c10srvPart {
 		{"srv/conn65535/prefilled", connB, seedConn, aConn, 6},
 		{"srv/conn65535/prefilled-two-streams", connB, seedConn2, aConn, 4},
 		{"srv/rr/win8/empty", c08srvCfg{Sched: "rr", StrWin: 8}, nil, aSmall, 5},
+		{"srv/win8/padded", small, nil, pSmall, 6},
+		{"srv/win600/padded", mid, nil, pMid, 5},
+		{"srv/conn65535/prefilled/padded", connB, seedConn, pConn, 4},
+		{"srv/conn65535/prefilled-two-streams/padded", connB, seedConn2, pConn, 3},
 	}
 }
 
 func TestVerif_C11(t *testing.T) {
 	DisableGoroutineTracking(t) // debug-only goroutine-ownership assertions (stack parsing); no behavioural effect
 	vx.Run(t, "C11", func(c *vx.Ctx) {
-		c.Rule("EV, server part: configured stream window 8 (stream boundary) or connection window 65535 pre-filled by three 16384-byte frames (connection boundary); every event sequence of depth 1..D after the seed over {H (<=2 POST streams), DATA(stream, len = w-1 | w | w+1 relative to the monitor's current min(stream, connection) window w, and len 1, 0), handler Read(n), Body.Close}; an out-of-window frame ends the sequence; oracle: DATA inside both advertised windows is never answered with FLOW_CONTROL_ERROR and is delivered to the handler in order (a final drain reads everything that was accepted); DATA beyond a window is answered with RST_STREAM or GOAWAY carrying FLOW_CONTROL_ERROR and handler Reads never return more than the in-window prefix. non-trivial = at least one DATA frame was sent")
+		c.Rule("EV, server part: configured stream window 8 or 600 (stream boundary; 600 so that frames with the maximal pad length 255 fit more than once) or connection window 65535 pre-filled by three 16384-byte frames (connection boundary); every event sequence of depth 1..D after the seed over {H (<=2 POST streams), unpadded DATA(stream, len = w-1 | w | w+1 relative to the monitor's current min(stream, connection) window w, and len 1, 0), in the */padded parts also PADDED DATA whose whole frame payload (pad-length byte + data + padding, RFC 9113 §6.9.1) is w-1 | w | w+1 with pad-length byte + padding = 1 (PADDED, no padding) | 3 | 256 (pad length 255) bytes of it, and fixed 1-byte-payload frames with pad length 1 | 255 that stay well inside the window so that their padding credit is still batched (not yet returned by WINDOW_UPDATE) when the next frame is sized, handler Read(n), Body.Close}; the monitor debits the whole frame payload and credits WINDOW_UPDATEs; an out-of-window frame (including one whose data bytes alone would still fit) ends the sequence; oracle: DATA inside both advertised windows is never answered with FLOW_CONTROL_ERROR and is delivered to the handler in order (a final drain reads everything that was accepted); DATA beyond a window is answered with RST_STREAM or GOAWAY carrying FLOW_CONTROL_ERROR and handler Reads never return more than the in-window prefix. non-trivial = at least one DATA frame was sent")
 		c.Assume("RFC 7540 §6.9.1 allows a stream or a connection error for a flow-control violation; either is accepted for both windows (the server answers connection-window violations with a stream error)")
 		c.Assume("after an out-of-window frame the client's view of the windows is undefined, so such a frame is always the last event of a sequence")
 		c.Assume("interleavings are explored at event granularity (L2); sends racing with WINDOW_UPDATEs the endpoint emits are therefore always sent after those updates were received")
